@@ -108,7 +108,13 @@ def main(argv=None):
             json.dump(rec, f, indent=1, sort_keys=True)
         p = subprocess.run([sys.executable, "-m", "ppsim.replay", path], cwd=env.VERIF,
                            capture_output=True, text=True, timeout=900)
-        if p.returncode == 1 and ("digest=%s" % out.digest) in p.stdout:
+        same_digest = ("digest=%s" % out.digest) in p.stdout
+        same_class = ("oracle=%s key=%s " % (out.oracle, out.key)) in p.stdout
+        if p.returncode == 1 and (same_digest or same_class):
+            if not same_digest:
+                # the violation reproduces in a fresh interpreter, though not bit for bit (a defect that corrupts
+                # process-global state, or an exception whose text depends on the process): still a violation
+                print("note: fresh replay of %s reproduces the violation class with a different event digest" % path)
             print("violation class %s: %d run(s); first index=%d seed=%d; minimised %d->%d ops, %d->%d faults"
                   % (sig2, len(new_classes[sig]), idx, seed, info["ops_before"], info["ops_after"],
                      info["faults_before"], info["faults_after"]))
